@@ -72,8 +72,8 @@ class Lab:
             raise LabError("frugal", "rc=%d\n%s" % (rc, out + err))
         self._write_glue()
         os.makedirs(os.path.dirname(self.bin), exist_ok=True)
-        rc, out, err = vlib.sh(["go", "build", "-tags", "verif", "-o", self.bin, "./lab/gen/%s/cmd" % self.id],
-                               cwd=HARNESS, env=vlib.GOENV, timeout=900)
+        rc, out, err, _excl = vlib.go_build_hooks(["go", "build", "-tags", "verif", "-o", self.bin, "./lab/gen/%s/cmd" % self.id],
+                                                  HARNESS, timeout=900)
         if rc != 0:
             raise LabError("go", out + err)
         return self
